@@ -95,6 +95,13 @@ def to_wide(v, nbytes):
     raise Unsupported(f"cannot widen {v!r}")
 
 
+def norm(v):
+    """a Wide whose slots are all concrete is an ordinary integer"""
+    if isinstance(v, Wide) and all(isinstance(x, int) for x in v.slots):
+        return sum(x << (8 * i) for i, x in enumerate(v.slots))
+    return v
+
+
 def nonzero(v):
     """truth of v != 0, or None when undetermined"""
     if isinstance(v, bool):
@@ -129,6 +136,48 @@ class Stream:
         return out
 
 
+class Iter:
+    """stateful iterator over a precomputed list"""
+    def __init__(self, items):
+        self.items = list(items)
+        self.pos = 0
+
+    def next(self):
+        if self.pos >= len(self.items):
+            return "None"
+        v = self.items[self.pos]
+        self.pos += 1
+        return ("Some", v)
+
+    def rest(self):
+        r = self.items[self.pos:]
+        self.pos = len(self.items)
+        return r
+
+
+class BTree:
+    """BTreeMap with concrete integer keys"""
+    def __init__(self):
+        self.d = {}
+
+    def items(self):
+        return [(k, self.d[k]) for k in sorted(self.d)]
+
+    def __repr__(self):
+        return "BTree" + repr(self.items())
+
+
+class Ref:
+    """a reference to one element of a list (for `for x in &mut slice { *x = .. }`)"""
+    __slots__ = ("lst", "i")
+
+    def __init__(self, lst, i):
+        self.lst, self.i = lst, i
+
+    def get(self):
+        return self.lst[self.i]
+
+
 class Sink:
     def __init__(self):
         self.out = []
@@ -144,6 +193,15 @@ class Mini:
     # ---- function lookup across crates ---------------------------------------------------------------------
     def find_fn(self, path, crate):
         if path.startswith("crate::"):
+            F = self.FB.get(crate)
+            r = F.fn(path) if F else None
+            return (r, crate) if r else (None, None)
+        if path.startswith("<"):
+            for cname, F in self.FB.items():
+                if path.startswith("<" + cname + "::"):
+                    r = F.fn(path.replace(cname + "::", "crate::"))
+                    if r:
+                        return r, cname
             F = self.FB.get(crate)
             r = F.fn(path) if F else None
             return (r, crate) if r else (None, None)
@@ -179,6 +237,14 @@ class Mini:
             self.crate = old
             self.depth -= 1
 
+    def canon(self, p):
+        """crate-qualified spelling of a def path (facts of crate X spell their own items `crate::...`)"""
+        if p.startswith("Self:"):
+            p = p[5:]
+        if p.startswith("crate::"):
+            return self.crate + "::" + p[7:]
+        return p
+
     # ---- env -------------------------------------------------------------------------------------------------
     def lookup(self, env, k):
         for fr in reversed(env):
@@ -195,6 +261,8 @@ class Mini:
 
     def bind(self, pat, v, env):
         t = H.tag(pat)
+        if isinstance(v, Ref) and t != "bind":
+            v = v.get()
         if t == "bind":
             if pat[5] is not None and not self.bind(pat[5], v, env):
                 return False
@@ -230,11 +298,23 @@ class Mini:
                     sub = pat[2][0] if t == "ts" else pat[2][0][1]
                     return self.bind(sub, v[1], env)
                 return False
+            if isinstance(v, tuple) and v and v[0] == "variant" and len(v) == 3 and t == "ts":
+                if self.canon(v[1]) != self.canon(pat[1]):
+                    return False
+                return all(self.bind(sp, sv, env) for sp, sv in zip(pat[2], v[2]))
+            if isinstance(v, tuple) and v and v[0] == "struct" and t == "ps":
+                return all(self.bind(sp, v[2][fn], env) for fn, sp in pat[2])
+            if isinstance(v, tuple) and v and v[0] == "variant":
+                return False
             raise Unsupported(f"pattern {pat[1]}")
         if t == "ppath":
             name = pat[1].split("::")[-1]
-            if name == "None":
+            if pat[1] == "std::option::Option::None":
                 return v == "None"
+            if isinstance(v, tuple) and v and v[0] == "variant":
+                return self.canon(v[1]) == self.canon(pat[1])
+            if v == "None":
+                return False
             raise Unsupported(f"path pattern {pat[1]}")
         if t == "por":
             return any(self.bind(p, v, env) for p in pat[1])
@@ -258,6 +338,9 @@ class Mini:
         return v
 
     def binop(self, op, a, b, ty):
+        return norm(self.binop0(op, a, b, ty))
+
+    def binop0(self, op, a, b, ty):
         if op in ("And", "Or"):
             raise Unsupported("lazy bool handled elsewhere")
         if op in ("Eq", "Ne", "Lt", "Le", "Gt", "Ge"):
@@ -358,6 +441,9 @@ class Mini:
         raise Unsupported(f"operator {op}")
 
     def cast(self, v, frm, to):
+        return norm(self.cast0(v, frm, to))
+
+    def cast0(self, v, frm, to):
         if to in INT_BITS:
             if isinstance(v, bool):
                 return int(v)
@@ -397,7 +483,8 @@ class Mini:
                 return n[2] == "true"
             return ("lit", n[2])
         if t == "local":
-            return self.lookup(env, n[1])
+            v = self.lookup(env, n[1])
+            return v.get() if isinstance(v, Ref) else v
         if t in ("ref", "refmut"):
             return self.ev(n[1], env)
         if t == "un":
@@ -424,8 +511,7 @@ class Mini:
         if t == "path":
             p, kind = n[1], n[2]
             if "Ctor(Variant, Const)" in kind:
-                nm = p.split("::")[-1]
-                return "None" if nm == "None" else ("variant", p)
+                return "None" if p == "std::option::Option::None" else ("variant", self.canon(p))
             if "Const" in kind:
                 r = self.const(p)
                 if r is not None:
@@ -519,7 +605,10 @@ class Mini:
                     continue
             return ()
         if t == "for":
-            it = self.iterate(self.ev(n[2], env))
+            src = self.ev(n[2], env)
+            if isinstance(src, tuple) and src and src[0] == "itermut":
+                src = src[1]
+            it = [Ref(src, i) for i in range(len(src))] if isinstance(src, list) else self.iterate(src)
             pat = n[1]
             if H.tag(pat) in ("ps", "ts") and pat[1].endswith("::Some"):
                 pat = pat[2][0][1] if H.tag(pat) == "ps" else pat[2][0]
@@ -597,6 +686,12 @@ class Mini:
             self.setvar(env, target[1], v)
             return
         if t == "un" and target[2] == "Deref":
+            inner = H.strip(target[4])
+            if H.tag(inner) == "local":
+                cell = self.lookup(env, inner[1])
+                if isinstance(cell, Ref):
+                    cell.lst[cell.i] = v
+                    return
             return self.assign(target[4], v, env)
         if t == "idx":
             b = self.ev(target[3], env)
@@ -605,6 +700,11 @@ class Mini:
                 if i < 0 or i >= len(b):
                     raise Panic(f"index {i} out of bounds (len {len(b)})")
                 b[i] = v
+                return
+        if t == "field":
+            b = self.ev(target[1], env)
+            if isinstance(b, tuple) and b and b[0] == "struct":
+                b[2][target[2]] = v
                 return
         raise Unsupported(f"assignment target {t}")
 
@@ -615,9 +715,21 @@ class Mini:
             return list(v)
         if isinstance(v, tuple) and v and v[0] == "iter":
             return list(v[1])
+        if isinstance(v, Iter):
+            return v.rest()
+        if isinstance(v, BTree):
+            return v.items()
+        if isinstance(v, tuple) and v and v[0] == "rangeincl":
+            return list(range(v[1], v[2] + 1))
         raise Unsupported(f"iteration over {v!r}")
 
     def const(self, p):
+        if p.startswith("std::num::<impl ") and p.split("::")[-1] in ("MAX", "MIN"):
+            ty = p.split("<impl ")[1].split(">")[0]
+            bits = INT_BITS[ty]
+            if ty.startswith("u"):
+                return (1 << bits) - 1 if p.endswith("MAX") else 0
+            return (1 << (bits - 1)) - 1 if p.endswith("MAX") else -(1 << (bits - 1))
         for cname, F in self.FB.items():
             q = p if p.startswith("crate::") and cname == self.crate else None
             if q is None and p.split("::", 1)[0] == cname:
@@ -645,7 +757,7 @@ class Mini:
             if last in ("Ok", "Err", "Some"):
                 return (last, args[0])
         if "Ctor(Variant, Fn)" in H.strip(H.strip(n)[2])[2]:
-            return ("variant", p, args)
+            return ("variant", self.canon(p), args)
         if p in ("std::vec::Vec::<T>::with_capacity", "std::vec::Vec::<T>::new"):
             if p.endswith("with_capacity") and isinstance(args[0], int) and args[0] > (1 << 32):
                 raise Panic(f"allocation of {args[0]} elements")
@@ -660,6 +772,9 @@ class Mini:
             ga = H.call_gargs(n)
             if len(ga) >= 2 and ga[0] in INT_BITS and ga[1] in INT_BITS:
                 return self.cast(args[0], ga[1], ga[0])
+        if p.startswith("std::f32::<impl f32>::") and last in ("from_le_bytes", "from_be_bytes"):
+            b = list(args[0])
+            return Wide(b if last == "from_le_bytes" else b[::-1])
         if p.startswith("std::num::<impl ") and last in ("from_le_bytes", "from_be_bytes"):
             ty = p.split("<impl ")[1].split(">")[0]
             b = list(args[0])
@@ -670,6 +785,23 @@ class Mini:
             if all(isinstance(x, int) for x in b):
                 return sum(x << (8 * i) for i, x in enumerate(b))
             return Wide(b)
+        if p == "std::ops::range::RangeInclusive::<Idx>::new":
+            return ("rangeincl", args[0], args[1])
+        if p.startswith("std::collections::btree::map::BTreeMap") and last == "new":
+            return BTree()
+        if p == "std::default::Default::default":
+            ty = H.strip(n)[4] or ""
+            if ty.startswith("std::vec::Vec"):
+                return []
+            if ty.startswith("std::collections::btree::map::BTreeMap"):
+                return BTree()
+            if ty in INT_BITS:
+                return 0
+        if p == "std::convert::TryInto::try_into" or p == "std::convert::TryFrom::try_from":
+            ga = H.call_gargs(n)
+            r = self.try_from(ga, args[0], swap=p.endswith("try_from"))
+            if r is not None:
+                return r
         if p == "std::mem::size_of":
             ga = H.call_gargs(n)
             if ga and ga[0] in INT_BITS:
@@ -680,6 +812,24 @@ class Mini:
         if r is not None:
             return self.call_fn(p, args)
         raise Unsupported(f"call {p}")
+
+    def try_from(self, gargs, v, swap):
+        """TryInto<T> for S / TryFrom<S> for T between integers, or a local TryFrom impl"""
+        if len(gargs) < 2:
+            return None
+        src, dst = (gargs[1], gargs[0]) if swap else (gargs[0], gargs[1])
+        if src in INT_BITS and dst in INT_BITS and isinstance(v, int):
+            bits = INT_BITS[dst]
+            lo, hi = (0, (1 << bits) - 1) if dst.startswith("u") else (-(1 << (bits - 1)), (1 << (bits - 1)) - 1)
+            return ("Ok", v) if lo <= v <= hi else ("Err", "TryFromIntError")
+        if src in INT_BITS and dst in INT_BITS and isinstance(v, (Tok, Wide)) and INT_BITS[dst] >= INT_BITS[src]:
+            return ("Ok", v)
+        cand = f"<{dst} as std::convert::TryFrom<{src}>>::try_from"
+        for variant in (cand, cand.replace(self.crate + "::", "crate::")):
+            r, _ = self.find_fn(variant, self.crate)
+            if r is not None:
+                return self.call_fn(variant, [v])
+        return None
 
     def apply(self, f, args):
         if isinstance(f, tuple) and f and f[0] == "fn":
@@ -724,6 +874,8 @@ class Mini:
             if nm == "extend_from_slice":
                 recv.extend(args[0])
                 return ()
+        if p.startswith("std::array::<impl [T; N]>::") and nm in ("as_slice", "as_mut_slice"):
+            return recv
         if p.startswith("std::slice::<impl [T]>::"):
             if nm == "len":
                 return len(recv)
@@ -731,6 +883,8 @@ class Mini:
                 return ("iter", list(recv))
             if nm == "is_empty":
                 return len(recv) == 0
+            if nm == "as_slice":
+                return recv
         if p == "std::iter::traits::iterator::Iterator::enumerate":
             return ("iter", [(i, x) for i, x in enumerate(self.iterate(recv))])
         if p == "std::iter::traits::iterator::Iterator::rev":
@@ -760,6 +914,12 @@ class Mini:
                 return ("Ok", recv[1]) if recv != "None" else ("Err", args[0])
             if nm == "is_some":
                 return recv != "None"
+            if nm == "ok_or_else":
+                return ("Ok", recv[1]) if recv != "None" else ("Err", self.apply(args[0], []))
+            if nm in ("unwrap_or", ):
+                return recv[1] if recv != "None" else args[0]
+            if nm == "unwrap_or_default" and recv != "None":
+                return recv[1]
             if nm == "is_none":
                 return recv == "None"
             if nm == "unwrap":
@@ -773,6 +933,12 @@ class Mini:
                 return recv[1]
             if nm == "map_err":
                 return recv
+            if nm == "ok":
+                return ("Some", recv[1]) if recv[0] == "Ok" else "None"
+            if nm == "is_ok":
+                return recv[0] == "Ok"
+            if nm == "is_err":
+                return recv[0] == "Err"
         if p in ("std::convert::Into::into", "std::convert::From::from"):
             ga = m["gargs"]
             if len(ga) >= 2 and ga[0] in INT_BITS and ga[1] in INT_BITS:
@@ -780,7 +946,70 @@ class Mini:
             if len(ga) >= 2 and ga[0] == ga[1]:
                 return recv
         if p in ("std::clone::Clone::clone",):
+            if isinstance(recv, BTree):
+                b = BTree()
+                b.d = dict(recv.d)
+                return b
             return list(recv) if isinstance(recv, list) else recv
+        if p == "std::convert::TryInto::try_into":
+            r = self.try_from(m["gargs"], recv, swap=False)
+            if r is not None:
+                return r
+        if p.startswith("std::collections::btree::map::BTreeMap"):
+            if not isinstance(recv, BTree):
+                raise Unsupported("BTreeMap receiver")
+            if nm == "insert":
+                k = args[0]
+                if not isinstance(k, int):
+                    raise Unsupported("abstract map key")
+                old = recv.d.get(k)
+                recv.d[k] = args[1]
+                return ("Some", old) if old is not None else "None"
+            if nm == "get":
+                return ("Some", recv.d[args[0]]) if args[0] in recv.d else "None"
+            if nm == "contains_key":
+                return args[0] in recv.d
+            if nm == "remove":
+                return ("Some", recv.d.pop(args[0])) if args[0] in recv.d else "None"
+            if nm == "len":
+                return len(recv.d)
+            if nm == "is_empty":
+                return not recv.d
+            if nm == "iter":
+                return Iter(recv.items())
+            if nm in ("keys", "values"):
+                return Iter([kv[0 if nm == "keys" else 1] for kv in recv.items()])
+            if nm == "range":
+                r = args[0]
+                if isinstance(r, tuple) and r[0] == "rangeincl":
+                    return Iter([kv for kv in recv.items() if r[1] <= kv[0] <= r[2]])
+                if isinstance(r, tuple) and r[0] == "range":
+                    return Iter([kv for kv in recv.items() if r[1] <= kv[0] < r[2]])
+        if p == "std::iter::traits::iterator::Iterator::next":
+            if isinstance(recv, Iter):
+                return recv.next()
+        if p == "std::iter::traits::iterator::Iterator::zip":
+            return ("iter", list(zip(self.iterate(recv), self.iterate(args[0]))))
+        if p == "std::iter::traits::iterator::Iterator::fold":
+            acc = args[0]
+            for x in self.iterate(recv):
+                acc = self.apply(args[1], [acc, x])
+            return acc
+        if p == "std::iter::traits::iterator::Iterator::any":
+            return any(self.truth(self.apply(args[0], [x])) for x in self.iterate(recv))
+        if p == "std::iter::traits::iterator::Iterator::all":
+            return all(self.truth(self.apply(args[0], [x])) for x in self.iterate(recv))
+        if p == "std::iter::traits::iterator::Iterator::map":
+            return ("iter", [self.apply(args[0], [x]) for x in self.iterate(recv)])
+        if p == "std::option::Option::<T>::map":
+            if recv == "None":
+                return "None"
+            return ("Some", self.apply(args[0], [recv[1]]))
+        if p.startswith("std::f32::<impl f32>::") and nm in ("to_le_bytes", "to_be_bytes"):
+            sl = to_wide(recv, 4).slots
+            return sl if nm == "to_le_bytes" else sl[::-1]
+        if p.startswith("std::slice::<impl [T]>::") and nm == "iter_mut":
+            return ("itermut", recv)
         r, _ = self.find_fn(p, self.crate)
         if r is not None:
             return self.call_fn(p, [recv] + args)
